@@ -1,12 +1,20 @@
-mod c16;
-mod c17;
-mod c18;
-mod c20;
-mod c21;
-mod c22;
-mod noisekit;
-mod util;
+use chk_crypto::*;
 
 fn main() {
+    // `chk-crypto --write-seeds <dir>`: (re)generate the golden seed corpora of the fuzz targets
+    let args: Vec<String> = std::env::args().collect();
+    if args.get(1).map(|s| s == "--write-seeds").unwrap_or(false) {
+        let dir = std::path::PathBuf::from(args.get(2).cloned().unwrap_or_else(|| "/verif/fuzz/seeds".into()));
+        match fuzzapi::write_seeds(&dir) {
+            Ok(n) => {
+                println!("{n} seed files written under {}", dir.display());
+                return;
+            }
+            Err(e) => {
+                eprintln!("cannot write seeds: {e}");
+                std::process::exit(2);
+            }
+        }
+    }
     vcore::runner::main(&[("C16", c16::run), ("C17", c17::run), ("C18", c18::run), ("C20", c20::run), ("C21", c21::run), ("C22", c22::run)])
 }
